@@ -55,7 +55,8 @@ Record pyexc := {
   e_name_perm : bool;       (* ... forbid / permission *)
   e_name_trans : bool;      (* ... timeout / connection *)
   e_status : pyval; e_status_code : pyval; e_code : pyval; e_sqlstate : pyval;   (* absent attribute = None *)
-  e_args : list pyval
+  e_args : list pyval        (* what iterating exc.args yields; an `args` attribute that cannot be iterated (a type's own
+                                attribute holding None, a number, a plain object) carries no arguments: [] *)
 }.
 
 (** the documented status table of default/strict *)
